@@ -3,7 +3,6 @@ sandbox (DESIGN.md section 5).  NOT_BUILT: a contract was designed (DESIGN.md se
 discharge it is not built (yet) -- listed honestly rather than claimed."""
 
 NOT_APPLICABLE = {
- "C16": "Printer/parser inverse over the same tables plus pyparsing grammars; string/grammar reasoning is outside both solvers' reach.",
  "C17": "Differential against an external reference disassembler. llvm-mc 14 / objdump are in the sandbox and a prototype (round 4) compared miasm's decoded length with llvm-mc on random x86 byte sequences: 3.7% (32-bit) and 16% (64-bit) of the decodable sequences disagree, in many classes -- conventions of the reference (redundant prefixes counted as separate instructions) mixed with genuine miasm defects (opcodes invalid in 64-bit mode such as AAA, POP ES, LDS are decoded; SAL /6 and ICEBP forms LLVM rejects). Separating the two per class was beyond the session; a check that cannot be made quiet honestly is not registered.",
  "C19": "Differential against a reference emulator that is not present; no machine-readable ISA specification in the sandbox.",
 }
